@@ -196,6 +196,20 @@ func (fr *actxFrame) sym1(v ssa.Value) string {
 		return unk
 	case *ssa.MakeInterface:
 		return fr.sym(x.X)
+	case *ssa.TypeAssert:
+		// node.(T): the same value seen as its dynamic type
+		if x.CommaOk {
+			return unk
+		}
+		b := fr.sym(x.X)
+		if actxUnknownSym(b) {
+			return unk
+		}
+		name := x.AssertedType.String()
+		if n, ok := x.AssertedType.(*types.Named); ok {
+			name = n.Obj().Name()
+		}
+		return b + ".(" + name + ")"
 	case *ssa.ChangeInterface:
 		return fr.sym(x.X)
 	case *ssa.ChangeType:
